@@ -85,6 +85,7 @@ def run(ctx):
     seqprims.check_seq_ok(ctx, "T-SEQTBL")
     seqprims.check_ack_processing(ctx, "T-ACKEST")
     seqprims.check_closed_listen(ctx)
+    seqprims.check_accept(ctx, "T-ACCEPT")
     t_inflight(ctx)
     run_panics(ctx)
 
@@ -168,7 +169,7 @@ def run_structural(ctx):
         o = dep.arg_origins(sg, cuts[0][0], 1)
         if not dep.has_field(o, "SendSequenceSpace", "wnd"):
             probs.append("the amount of new data cut does not depend on SND.WND")
-        if not dep.has_call(o, "outgoing::{impl#0}::queued_bytes"):
+        if not dep.has_call(o, "outgoing::{impl#0}::queued_bytes") and not (dep.has_field(o, "SendSequenceSpace", "nxt") and dep.has_field(o, "SendSequenceSpace", "una")):
             probs.append("the amount of new data cut does not account for the bytes already in flight")
         if not (any(a[0] == "op" and a[1] in ("SubWithOverflow", "Sub") for a in o) or dep.has_call(o, "saturating_sub") or dep.has_call(o, "checked_sub")):
             probs.append("window minus in-flight bytes is not computed")
@@ -193,7 +194,21 @@ def t_inflight(ctx):
     in flight, or re-armed by the retransmission timer alike. Any filtering / skipping / early-terminating adaptor on
     that iteration lets new text go out beyond SND.UNA + SND.WND."""
     prog = ctx.prog()
-    qb = prog.method("Outgoing", "queued_bytes")
+    try:
+        qb = prog.method("Outgoing", "queued_bytes")
+    except F.AnchorMissing:
+        # no such helper (any more): the octets outstanding must then be the circular distance SND.NXT - SND.UNA
+        sg = prog.method("Tcb", "segments")
+        subs = [(bb, t) for bb, t in K.calls(sg) if (F.callee_key(t) or "").endswith("saturating_sub") and dep.has_field(dep.arg_origins(sg, bb, 0), "SendSequenceSpace", "wnd")]
+        ctx.require(len(subs) >= 1, "T-INFLIGHT: Tcb::segments no longer subtracts the octets outstanding from SND.WND")
+        probs = []
+        for bb, t in subs:
+            o = dep.arg_origins(sg, bb, 1)
+            calls = sorted({a[1].rsplit("::", 1)[-1] for a in o if a[0] == "call" and a[1]})
+            if not ("wrapping_sub" in calls and dep.has_field(o, "SendSequenceSpace", "nxt") and dep.has_field(o, "SendSequenceSpace", "una")) or set(calls) & {"abs_diff", "checked_sub"}:
+                probs.append("the octets outstanding that Tcb::segments subtracts from SND.WND are computed through %s: neither the sum over the retransmission queue nor the circular distance SND.NXT - SND.UNA (wrapping_sub), so the usable window depends on where the sequence numbers lie" % (", ".join(calls) or "?"))
+        (ctx.bad if probs else ctx.ok)("T-INFLIGHT", "T-INFLIGHT:Tcb::segments", sg.span, "; ".join(probs[:1]) if probs else "octets outstanding = SND.NXT - SND.UNA (circular)")
+        return
     scope = [qb] + [b for b in prog.bodies.values() if b.parent == qb.key]
     PARTIAL = {"filter", "filter_map", "skip", "skip_while", "take", "take_while", "step_by", "find", "position", "nth", "last", "next", "next_back",
                "min", "max", "min_by_key", "max_by_key", "map_while", "scan", "rev_take", "range", "front", "back", "get", "first"}
